@@ -300,6 +300,10 @@ func ruleGuardedBy(p *Program, r *Report) {
 					r.Check(a.InOnce[g.guard] || a.AfterDo[g.guard], key, "read after "+g.guard+".Do", fmt.Sprintf("%s is read in %s without first passing %s.Do: it can observe the cell before or while another goroutine initialises it", g.cell, FnName(a.Fn), g.guard), pos)
 				}
 			case "mutex":
+				if (a.Kind == "store" || a.Kind == "mapwrite") && a.Held[g.guard] && a.Held[sharedMark+g.guard] {
+					r.Viol(key, fmt.Sprintf("%s is written in %s while %s is held only in read mode (RLock): any number of goroutines hold a read lock at once, so two first uses write the cell concurrently", g.cell, FnName(a.Fn), g.guard), pos)
+					continue
+				}
 				r.Check(a.Held[g.guard], key, "accessed with "+g.guard+" held", fmt.Sprintf("%s (%s) is accessed in %s without holding %s, which guards it elsewhere: data race", g.cell, a.Kind, FnName(a.Fn), g.guard), pos)
 			}
 		}
@@ -311,7 +315,7 @@ func ruleGuardedBy(p *Program, r *Report) {
 	for _, fn := range p.RepoFns {
 		ForEachInstr(fn, func(ins ssa.Instruction) {
 			if c, ok := ins.(ssa.CallInstruction); ok {
-				if op, key, is := lockOp(c.Common()); is && (op == "lock" || op == "do") {
+				if op, key, is := lockOp(c.Common()); is && (op == "lock" || op == "rlock" || op == "do") {
 					used[key] = true
 				}
 			}
